@@ -16,3 +16,116 @@ pub fn hash_mask() -> u32 {
 pub fn set_hash_mask(mask: u32) {
     HASH_MASK.store(mask, Ordering::Relaxed);
 }
+
+// ---------------------------------------------------------------------------------------------
+// scheduling points and notifications for the concurrency checks
+
+use std::sync::{atomic::AtomicBool, Arc, RwLock};
+
+/// Where a thread is about to do something another thread could interfere with. The hook may
+/// block the calling thread here (deterministic scheduling).
+#[derive(Debug, Clone, Copy, PartialEq, Eq)]
+pub enum Point {
+    /// about to acquire the lock at `addr` (`write`: exclusively)
+    Lock { addr: usize, write: bool, what: LockKind },
+    /// about to perform a read-modify-write on the tree's reference count
+    Rmw { site: RmwSite },
+}
+
+#[derive(Debug, Clone, Copy, PartialEq, Eq)]
+pub enum LockKind {
+    Slot,
+    Data,
+}
+
+#[derive(Debug, Clone, Copy, PartialEq, Eq)]
+pub enum RmwSite {
+    Clone,
+    Drop,
+    LoserNode,
+    LoserToken,
+}
+
+/// Things that happened (never block).
+#[derive(Debug, Clone, Copy, PartialEq, Eq)]
+pub enum Note {
+    Acquired { addr: usize, write: bool, what: LockKind },
+    Released { addr: usize, write: bool, what: LockKind },
+    /// value of the reference count right after the read-modify-write announced by the last
+    /// `Point::Rmw` (exact when one thread runs at a time)
+    RmwDone { now: u32 },
+    /// `get_or_add_*` found the slot `index` of node `node` filled / empty
+    SlotHit { node: usize, index: usize },
+    SlotMiss { node: usize, index: usize, is_node: bool },
+    /// `try_write` stored the element / found the slot filled by someone else
+    Installed { node: usize, index: usize },
+    Lost { node: usize, index: usize },
+    /// a `NodeData` (or the reference count cell) was allocated / freed
+    Alloc { ptr: usize, count_cell: bool },
+    Free { ptr: usize, count_cell: bool },
+    /// a `NodeData` is dereferenced
+    Access { ptr: usize },
+    /// the slot `index` of `node` is read / written (must happen under its lock)
+    SlotAccess { node: usize, index: usize, write: bool },
+    DataAccess { node: usize, write: bool },
+}
+
+pub trait Hook: Send + Sync {
+    fn point(&self, p: Point);
+    fn note(&self, n: Note);
+}
+
+static ENABLED: AtomicBool = AtomicBool::new(false);
+static HOOK: RwLock<Option<Arc<dyn Hook>>> = RwLock::new(None);
+
+pub fn set_hook(hook: Option<Arc<dyn Hook>>) {
+    ENABLED.store(hook.is_some(), Ordering::SeqCst);
+    *HOOK.write().unwrap() = hook;
+}
+
+#[inline]
+fn current() -> Option<Arc<dyn Hook>> {
+    if !ENABLED.load(Ordering::Relaxed) {
+        return None;
+    }
+    HOOK.read().unwrap().clone()
+}
+
+#[inline]
+pub fn point(p: Point) {
+    if let Some(h) = current() {
+        h.point(p);
+    }
+}
+
+#[inline]
+pub fn note(n: Note) {
+    if let Some(h) = current() {
+        h.note(n);
+    }
+}
+
+/// Emits `Released` when dropped. Declare it *after* the lock guard so that it is dropped first.
+#[derive(Debug)]
+pub struct LockScope {
+    addr:  usize,
+    write: bool,
+    what:  LockKind,
+}
+
+impl LockScope {
+    pub fn new(addr: usize, write: bool, what: LockKind) -> Self {
+        note(Note::Acquired { addr, write, what });
+        LockScope { addr, write, what }
+    }
+}
+
+impl Drop for LockScope {
+    fn drop(&mut self) {
+        note(Note::Released {
+            addr:  self.addr,
+            write: self.write,
+            what:  self.what,
+        });
+    }
+}
